@@ -31,16 +31,43 @@ def helper_target(prog, cs):
     return tg[0]
 
 
+def lazy_map(prog, body, cs):
+    """`iter.map(closure).collect()`: the closure's reads happen when the adaptor is consumed. Returns
+    (iteration domain, closure value expression, closure body) for such a consumer call, else None"""
+    if prog is None or mir.method_name(cs.name) not in ('collect', 'count', 'last', 'sum') or not cs.args:
+        return None
+    e = peel(body.op_expr(cs.args[0]))
+    if e[0] == 'call' and mir.method_name(e[1]) == 'map' and 'Iterator' in e[1] and len(e[2]) == 2:
+        clo = peel(e[2][1])
+        if clo[0] == 'aggr' and clo[1] == 'closure' and clo[2] in prog.bodies:
+            cb = prog.bodies[clo[2]]
+            if any(is_read(c) for c in cb.calls):
+                return peel(e[2][0]), clo, cb
+    return None
+
+
 def _collect(prog, body, xf, outer_loops, outer_guards, depth, helpers):
     """items of `body` as dicts with expression-valued fields; xf transforms body-local expressions into
     the outermost caller's frame"""
-    reads, _ = util.read_sequence(body, is_read)
+    reads, _ = util.read_sequence(body, lambda c: is_read(c) or lazy_map(prog, body, c) is not None)
     out = []
     for cs in reads:
         loops = list(outer_loops) + [xf(x) if x is not None else None for x in util.loop_bounds(body, cs.bb)]
         guards = list(outer_guards)
         for r in util.facts_to_rels(body.facts_at(cs.bb)):
             guards.append(tuple(xf(x) if isinstance(x, tuple) and x and isinstance(x[0], str) and x[0] in mir._KINDS else x for x in r))
+        lm = lazy_map(prog, body, cs) if not is_read(cs) else None
+        if lm is not None and depth < 3:
+            dom, clo, cb = lm
+            helpers.add(cb.path)
+            item = mir.mk_try(('call', '<I as std::iter::Iterator>::next', (xf(dom),), cs.site))
+            mapping = {1: xf(clo), 2: item}
+            site = xf(body.call_expr(cs))[3]
+
+            def xf3(e, mapping=mapping, site=site, cb=cb):
+                return mir.tag_sites(mir.subst(e, mapping), site, cb.path)
+            out.extend(_collect(prog, cb, xf3, loops + [xf(dom)], guards, depth + 1, helpers))
+            continue
         tgt = helper_target(prog, cs)
         call_e = xf(body.call_expr(cs))
         if tgt is not None and depth < 3:
